@@ -1,340 +1,871 @@
-// Copyright 2013 The Go Authors. All rights reserved.
-// Use of this source code is governed by a BSD-style
-// license that can be found in the LICENSE file.
+package main
 
-package interp
-
-// Emulated functions that we cannot interpret because they are
-// external or because they use "unsafe" or "reflect" operations.
+// Intrinsics: functions the engine implements itself instead of interpreting
+// their SSA (body-less runtime/assembly functions, sync primitives modelled on
+// the cooperative scheduler, environment stubs, and the vx* harness API).
 
 import (
-	"bytes"
+	"fmt"
+	"go/types"
 	"math"
-	"os"
-	"runtime"
-	"sort"
-	"strconv"
 	"strings"
-	"time"
-	"unicode/utf8"
+
+	"golang.org/x/tools/go/ssa"
 )
 
 type externalFn func(fr *frame, args []value) value
 
-// TODO(adonovan): fix: reflect.Value abstracts an lvalue or an
-// rvalue; Set() causes mutations that can be observed via aliases.
-// We have not captured that correctly here.
+// sideState holds engine-side models keyed by the address of the Go object.
+type sideState struct {
+	mutex   map[*value]*mutexState
+	rw      map[*value]*rwState
+	wg      map[*value]*wgState
+	pool    map[*value]*poolState
+	smap    map[*value]*omap
+	poolSeq []*value
+}
 
-// Key strings are from Function.String().
-var externals = make(map[string]externalFn)
+type mutexState struct {
+	locked bool
+	owner  int
+}
+type rwState struct {
+	writer  bool
+	readers int
+}
+type wgState struct{ n int64 }
+type poolState struct{ items []value }
 
-func init() {
-	// That little dot ۰ is an Arabic zero numeral (U+06F0), categories [Nd].
-	for k, v := range map[string]externalFn{
-		"(reflect.Value).Bool":            ext۰reflect۰Value۰Bool,
-		"(reflect.Value).CanAddr":         ext۰reflect۰Value۰CanAddr,
-		"(reflect.Value).CanInterface":    ext۰reflect۰Value۰CanInterface,
-		"(reflect.Value).Elem":            ext۰reflect۰Value۰Elem,
-		"(reflect.Value).Field":           ext۰reflect۰Value۰Field,
-		"(reflect.Value).Float":           ext۰reflect۰Value۰Float,
-		"(reflect.Value).Index":           ext۰reflect۰Value۰Index,
-		"(reflect.Value).Int":             ext۰reflect۰Value۰Int,
-		"(reflect.Value).Interface":       ext۰reflect۰Value۰Interface,
-		"(reflect.Value).IsNil":           ext۰reflect۰Value۰IsNil,
-		"(reflect.Value).IsValid":         ext۰reflect۰Value۰IsValid,
-		"(reflect.Value).Kind":            ext۰reflect۰Value۰Kind,
-		"(reflect.Value).Len":             ext۰reflect۰Value۰Len,
-		"(reflect.Value).MapIndex":        ext۰reflect۰Value۰MapIndex,
-		"(reflect.Value).MapKeys":         ext۰reflect۰Value۰MapKeys,
-		"(reflect.Value).NumField":        ext۰reflect۰Value۰NumField,
-		"(reflect.Value).NumMethod":       ext۰reflect۰Value۰NumMethod,
-		"(reflect.Value).Pointer":         ext۰reflect۰Value۰Pointer,
-		"(reflect.Value).Set":             ext۰reflect۰Value۰Set,
-		"(reflect.Value).String":          ext۰reflect۰Value۰String,
-		"(reflect.Value).Type":            ext۰reflect۰Value۰Type,
-		"(reflect.Value).Uint":            ext۰reflect۰Value۰Uint,
-		"(reflect.error).Error":           ext۰reflect۰error۰Error,
-		"(reflect.rtype).Bits":            ext۰reflect۰rtype۰Bits,
-		"(reflect.rtype).Elem":            ext۰reflect۰rtype۰Elem,
-		"(reflect.rtype).Field":           ext۰reflect۰rtype۰Field,
-		"(reflect.rtype).In":              ext۰reflect۰rtype۰In,
-		"(reflect.rtype).Kind":            ext۰reflect۰rtype۰Kind,
-		"(reflect.rtype).NumField":        ext۰reflect۰rtype۰NumField,
-		"(reflect.rtype).NumIn":           ext۰reflect۰rtype۰NumIn,
-		"(reflect.rtype).NumMethod":       ext۰reflect۰rtype۰NumMethod,
-		"(reflect.rtype).NumOut":          ext۰reflect۰rtype۰NumOut,
-		"(reflect.rtype).Out":             ext۰reflect۰rtype۰Out,
-		"(reflect.rtype).Size":            ext۰reflect۰rtype۰Size,
-		"(reflect.rtype).String":          ext۰reflect۰rtype۰String,
-		"bytes.Equal":                     ext۰bytes۰Equal,
-		"bytes.IndexByte":                 ext۰bytes۰IndexByte,
-		"fmt.Sprint":                      ext۰fmt۰Sprint,
-		"math.Abs":                        ext۰math۰Abs,
-		"math.Copysign":                   ext۰math۰Copysign,
-		"math.Exp":                        ext۰math۰Exp,
-		"math.Float32bits":                ext۰math۰Float32bits,
-		"math.Float32frombits":            ext۰math۰Float32frombits,
-		"math.Float64bits":                ext۰math۰Float64bits,
-		"math.Float64frombits":            ext۰math۰Float64frombits,
-		"math.Inf":                        ext۰math۰Inf,
-		"math.IsNaN":                      ext۰math۰IsNaN,
-		"math.Ldexp":                      ext۰math۰Ldexp,
-		"math.Log":                        ext۰math۰Log,
-		"math.Min":                        ext۰math۰Min,
-		"math.NaN":                        ext۰math۰NaN,
-		"math.Sqrt":                       ext۰math۰Sqrt,
-		"os.Exit":                         ext۰os۰Exit,
-		"os.Getenv":                       ext۰os۰Getenv,
-		"reflect.New":                     ext۰reflect۰New,
-		"reflect.SliceOf":                 ext۰reflect۰SliceOf,
-		"reflect.TypeOf":                  ext۰reflect۰TypeOf,
-		"reflect.ValueOf":                 ext۰reflect۰ValueOf,
-		"reflect.Zero":                    ext۰reflect۰Zero,
-		"runtime.Breakpoint":              ext۰runtime۰Breakpoint,
-		"runtime.GC":                      ext۰runtime۰GC,
-		"runtime.GOMAXPROCS":              ext۰runtime۰GOMAXPROCS,
-		"runtime.GOROOT":                  ext۰runtime۰GOROOT,
-		"runtime.Goexit":                  ext۰runtime۰Goexit,
-		"runtime.Gosched":                 ext۰runtime۰Gosched,
-		"runtime.NumCPU":                  ext۰runtime۰NumCPU,
-		"sort.Float64s":                   ext۰sort۰Float64s,
-		"sort.Ints":                       ext۰sort۰Ints,
-		"sort.Strings":                    ext۰sort۰Strings,
-		"strconv.Atoi":                    ext۰strconv۰Atoi,
-		"strconv.Itoa":                    ext۰strconv۰Itoa,
-		"strconv.FormatFloat":             ext۰strconv۰FormatFloat,
-		"strings.Count":                   ext۰strings۰Count,
-		"strings.EqualFold":               ext۰strings۰EqualFold,
-		"strings.Index":                   ext۰strings۰Index,
-		"strings.IndexByte":               ext۰strings۰IndexByte,
-		"strings.Replace":                 ext۰strings۰Replace,
-		"strings.ToLower":                 ext۰strings۰ToLower,
-		"time.Sleep":                      ext۰time۰Sleep,
-		"unicode/utf8.DecodeRuneInString": ext۰unicode۰utf8۰DecodeRuneInString,
-	} {
-		externals[k] = v
+func newSideState() *sideState {
+	return &sideState{
+		mutex: map[*value]*mutexState{}, rw: map[*value]*rwState{}, wg: map[*value]*wgState{},
+		pool: map[*value]*poolState{}, smap: map[*value]*omap{},
 	}
 }
 
-func ext۰bytes۰Equal(fr *frame, args []value) value {
-	// func Equal(a, b []byte) bool
-	a := args[0].([]value)
-	b := args[1].([]value)
-	if len(a) != len(b) {
-		return false
+// world holds per-path environment/harness state.
+type world struct {
+	poolMode int // 0 fresh, 1 LIFO reuse, 2 solver/engine choice
+	now      int64
+	counters map[string]int
+}
+
+var anyType = types.NewInterfaceType(nil, nil).Complete()
+
+var externals = map[string]externalFn{}
+
+func (i *interpreter) findExternal(fn *ssa.Function) externalFn {
+	name := fn.String()
+	if ext := externals[name]; ext != nil {
+		return ext
 	}
-	for i := range a {
-		if a[i] != b[i] {
-			return false
+	if fn.Pkg != nil && fn.Signature.Recv() == nil && strings.HasPrefix(fn.Name(), "vx") {
+		if ext := vxFuncs[fn.Name()]; ext != nil {
+			return ext
+		}
+		if fn.Blocks == nil {
+			panic(engineError("unknown vx intrinsic " + fn.Name()))
 		}
 	}
-	return true
+	if fn.Pkg != nil {
+		pp := fn.Pkg.Pkg.Path()
+		// logging of the framework: arguments were evaluated, no effect
+		if pp == "github.com/henrylee2cn/erpc/v6" && fn.Signature.Recv() == nil {
+			switch fn.Name() {
+			case "Printf", "Debugf", "Tracef", "Infof", "Noticef", "Warnf", "Errorf", "Criticalf", "EnablePrint", "EnableDebug":
+				return extNop
+			case "Fatalf", "Panicf":
+				return func(fr *frame, args []value) value {
+					fr.i.event("fatal")
+					panic(pathAbort{"fatal", "erpc." + fn.Name() + ": " + toStringTrunc(args[0])})
+				}
+			}
+		}
+		if pp == "github.com/henrylee2cn/goutil" && fn.Name() == "PanicTrace" {
+			return func(fr *frame, args []value) value { return []value{} }
+		}
+		if pp == "log" {
+			return extNop
+		}
+	}
+	return nil
 }
 
-func ext۰bytes۰IndexByte(fr *frame, args []value) value {
-	// func IndexByte(s []byte, c byte) int
-	s := args[0].([]value)
-	c := args[1].(byte)
-	for i, b := range s {
-		if b.(byte) == c {
-			return i
+func toStringTrunc(v value) string {
+	s := toString(v)
+	if len(s) > 200 {
+		s = s[:200]
+	}
+	return s
+}
+
+func extNop(fr *frame, args []value) value { return nil }
+
+func init() {
+	for k, v := range map[string]externalFn{
+		// ---- kept from ssa/interp
+		"(reflect.Value).Bool":         ext۰reflect۰Value۰Bool,
+		"(reflect.Value).CanAddr":      ext۰reflect۰Value۰CanAddr,
+		"(reflect.Value).CanInterface": ext۰reflect۰Value۰CanInterface,
+		"(reflect.Value).Elem":         ext۰reflect۰Value۰Elem,
+		"(reflect.Value).Field":        ext۰reflect۰Value۰Field,
+		"(reflect.Value).Float":        ext۰reflect۰Value۰Float,
+		"(reflect.Value).Index":        ext۰reflect۰Value۰Index,
+		"(reflect.Value).Int":          ext۰reflect۰Value۰Int,
+		"(reflect.Value).Interface":    ext۰reflect۰Value۰Interface,
+		"(reflect.Value).IsNil":        ext۰reflect۰Value۰IsNil,
+		"(reflect.Value).IsValid":      ext۰reflect۰Value۰IsValid,
+		"(reflect.Value).Kind":         ext۰reflect۰Value۰Kind,
+		"(reflect.Value).Len":          ext۰reflect۰Value۰Len,
+		"(reflect.Value).MapIndex":     ext۰reflect۰Value۰MapIndex,
+		"(reflect.Value).MapKeys":      ext۰reflect۰Value۰MapKeys,
+		"(reflect.Value).NumField":     ext۰reflect۰Value۰NumField,
+		"(reflect.Value).NumMethod":    ext۰reflect۰Value۰NumMethod,
+		"(reflect.Value).Pointer":      ext۰reflect۰Value۰Pointer,
+		"(reflect.Value).Set":          ext۰reflect۰Value۰Set,
+		"(reflect.Value).String":       ext۰reflect۰Value۰String,
+		"(reflect.Value).Type":         ext۰reflect۰Value۰Type,
+		"(reflect.Value).Uint":         ext۰reflect۰Value۰Uint,
+		"(reflect.error).Error":        ext۰reflect۰error۰Error,
+		"(reflect.rtype).Bits":         ext۰reflect۰rtype۰Bits,
+		"(reflect.rtype).Elem":         ext۰reflect۰rtype۰Elem,
+		"(reflect.rtype).Field":        ext۰reflect۰rtype۰Field,
+		"(reflect.rtype).In":           ext۰reflect۰rtype۰In,
+		"(reflect.rtype).Kind":         ext۰reflect۰rtype۰Kind,
+		"(reflect.rtype).NumField":     ext۰reflect۰rtype۰NumField,
+		"(reflect.rtype).NumIn":        ext۰reflect۰rtype۰NumIn,
+		"(reflect.rtype).NumMethod":    ext۰reflect۰rtype۰NumMethod,
+		"(reflect.rtype).NumOut":       ext۰reflect۰rtype۰NumOut,
+		"(reflect.rtype).Out":          ext۰reflect۰rtype۰Out,
+		"(reflect.rtype).Size":         ext۰reflect۰rtype۰Size,
+		"(reflect.rtype).String":       ext۰reflect۰rtype۰String,
+		"reflect.New":                  ext۰reflect۰New,
+		"reflect.SliceOf":              ext۰reflect۰SliceOf,
+		"reflect.TypeOf":               ext۰reflect۰TypeOf,
+		"reflect.ValueOf":              ext۰reflect۰ValueOf,
+		"reflect.Zero":                 ext۰reflect۰Zero,
+		"math.Float32bits":             func(fr *frame, a []value) value { return math.Float32bits(a[0].(float32)) },
+		"math.Float32frombits":         func(fr *frame, a []value) value { return math.Float32frombits(a[0].(uint32)) },
+		"math.Float64bits":             func(fr *frame, a []value) value { return math.Float64bits(a[0].(float64)) },
+		"math.Float64frombits":         func(fr *frame, a []value) value { return math.Float64frombits(a[0].(uint64)) },
+		"math.Abs":                     func(fr *frame, a []value) value { return math.Abs(a[0].(float64)) },
+		"math.Inf":                     func(fr *frame, a []value) value { return math.Inf(a[0].(int)) },
+		"math.IsNaN":                   func(fr *frame, a []value) value { return math.IsNaN(a[0].(float64)) },
+		"math.NaN":                     func(fr *frame, a []value) value { return math.NaN() },
+		"math.Sqrt":                    func(fr *frame, a []value) value { return math.Sqrt(a[0].(float64)) },
+		"math.Floor":                   func(fr *frame, a []value) value { return math.Floor(a[0].(float64)) },
+		"math.archFloor":               func(fr *frame, a []value) value { return math.Floor(a[0].(float64)) },
+		"math.Log":                     func(fr *frame, a []value) value { return math.Log(a[0].(float64)) },
+		"math.Exp":                     func(fr *frame, a []value) value { return math.Exp(a[0].(float64)) },
+		"math.Ldexp":                   func(fr *frame, a []value) value { return math.Ldexp(a[0].(float64), a[1].(int)) },
+		"os.Getenv":                    func(fr *frame, a []value) value { return "" },
+		"os.Exit": func(fr *frame, a []value) value {
+			fr.i.event("os.Exit")
+			panic(pathAbort{"fatal", "os.Exit"})
+		},
+
+		// ---- runtime
+		"runtime.GC":             extNop,
+		"runtime.Gosched":        func(fr *frame, a []value) value { fr.i.yieldPoint("gosched"); return nil },
+		"runtime.GOMAXPROCS":     func(fr *frame, a []value) value { return 1 },
+		"runtime.NumCPU":         func(fr *frame, a []value) value { return 1 },
+		"runtime.KeepAlive":      extNop,
+		"runtime.SetFinalizer":   extNop,
+		"runtime.Stack":          func(fr *frame, a []value) value { return 0 },
+		"runtime.Caller":         func(fr *frame, a []value) value { return tuple{uintptr(0), "", 0, false} },
+		"runtime.Callers":        func(fr *frame, a []value) value { return 0 },
+		"runtime/debug.Stack":    func(fr *frame, a []value) value { return []value{} },
+		"runtime.Goexit":         func(fr *frame, a []value) value { panic(unsupported("runtime.Goexit")) },
+		"internal/race.Enable":   extNop,
+		"internal/race.Disable":  extNop,
+		"internal/race.Acquire":  extNop,
+		"internal/race.Release":  extNop,
+		"internal/race.ReleaseMerge": extNop,
+		"internal/race.Read":     extNop,
+		"internal/race.Write":    extNop,
+		"internal/race.ReadRange": extNop,
+		"internal/race.WriteRange": extNop,
+		"internal/race.Errors":   func(fr *frame, a []value) value { return 0 },
+
+		// ---- bytealg
+		"internal/bytealg.IndexByte":       extIndexByte,
+		"internal/bytealg.IndexByteString": extIndexByte,
+		"internal/bytealg.Count":           extCountByte,
+		"internal/bytealg.CountString":     extCountByte,
+		"internal/bytealg.Equal":           extBytesEqual,
+		"internal/bytealg.Compare":         extBytesCompare,
+		"internal/bytealg.CompareString":   extBytesCompare,
+		"internal/bytealg.Index":           extIndexSub,
+		"internal/bytealg.IndexString":     extIndexSub,
+		"internal/bytealg.MakeNoZero": func(fr *frame, a []value) value {
+			n := fr.i.concretize(a[0], "MakeNoZero")
+			r := make([]value, n)
+			for k := range r {
+				r[k] = uint8(0)
+			}
+			return r
+		},
+		"bytes.Equal":   extBytesEqual,
+		"bytes.Compare": extBytesCompare,
+		"internal/stringslite.Index": nil,
+		"runtime.memequal": nil,
+		"strings.Compare": extBytesCompare,
+
+		"github.com/henrylee2cn/goutil.SelfDir":  func(fr *frame, a []value) value { return "/vx" },
+		"github.com/henrylee2cn/goutil.SelfPath": func(fr *frame, a []value) value { return "/vx/bin" },
+		"regexp.MustCompile":                     func(fr *frame, a []value) value { return (*value)(nil) },
+		"regexp.Compile":                         func(fr *frame, a []value) value { return tuple{(*value)(nil), iface{}} },
+
+		"github.com/gogo/protobuf/proto.RegisterType":           extNop,
+		"github.com/gogo/protobuf/proto.RegisterFile":           extNop,
+		"github.com/gogo/protobuf/proto.RegisterEnum":           extNop,
+		"github.com/golang/protobuf/proto.RegisterType":         extNop,
+		"github.com/golang/protobuf/proto.RegisterFile":         extNop,
+		"github.com/golang/protobuf/proto.RegisterEnum":         extNop,
+
+		// ---- unsafe string helpers of the code base
+		"github.com/henrylee2cn/goutil.BytesToString": extBytesToStringAlias,
+		"github.com/henrylee2cn/goutil.StringToBytes": extStringToBytesAlias,
+
+		// ---- sync
+		"(*sync.Mutex).Lock":      extMutexLock,
+		"(*sync.Mutex).Unlock":    extMutexUnlock,
+		"(*sync.Mutex).TryLock":   extMutexTryLock,
+		"(*sync.RWMutex).Lock":    extRWLock,
+		"(*sync.RWMutex).Unlock":  extRWUnlock,
+		"(*sync.RWMutex).RLock":   extRWRLock,
+		"(*sync.RWMutex).RUnlock": extRWRUnlock,
+		"(*sync.WaitGroup).Add":   extWGAdd,
+		"(*sync.WaitGroup).Done":  func(fr *frame, a []value) value { return extWGAdd(fr, []value{a[0], -1}) },
+		"(*sync.WaitGroup).Wait":  extWGWait,
+		"(*sync.Pool).Get":        extPoolGet,
+		"(*sync.Pool).Put":        extPoolPut,
+		"(*sync.Map).Load":        extSMapLoad,
+		"(*sync.Map).Store":       extSMapStore,
+		"(*sync.Map).LoadOrStore": extSMapLoadOrStore,
+		"(*sync.Map).Delete":      extSMapDelete,
+		"(*sync.Map).Range":       extSMapRange,
+		"(*github.com/henrylee2cn/goutil.atomicMap).Load":        extSMapLoad,
+		"(*github.com/henrylee2cn/goutil.atomicMap).Store":       extSMapStore,
+		"(*github.com/henrylee2cn/goutil.atomicMap).LoadOrStore": extSMapLoadOrStore,
+		"(*github.com/henrylee2cn/goutil.atomicMap).Delete":      extSMapDelete,
+		"(*github.com/henrylee2cn/goutil.atomicMap).Range":       extSMapRange,
+		"(*github.com/henrylee2cn/goutil.atomicMap).Len":         extSMapLen,
+		"(*github.com/henrylee2cn/goutil.atomicMap).Clear":       extSMapClear,
+
+		// ---- sync/atomic
+		"sync/atomic.AddInt32":              extAtomicAdd,
+		"sync/atomic.AddInt64":              extAtomicAdd,
+		"sync/atomic.AddUint32":             extAtomicAdd,
+		"sync/atomic.AddUint64":             extAtomicAdd,
+		"sync/atomic.AddUintptr":            extAtomicAdd,
+		"sync/atomic.LoadInt32":             extAtomicLoad,
+		"sync/atomic.LoadInt64":             extAtomicLoad,
+		"sync/atomic.LoadUint32":            extAtomicLoad,
+		"sync/atomic.LoadUint64":            extAtomicLoad,
+		"sync/atomic.LoadUintptr":           extAtomicLoad,
+		"sync/atomic.LoadPointer":           extAtomicLoad,
+		"sync/atomic.StoreInt32":            extAtomicStore,
+		"sync/atomic.StoreInt64":            extAtomicStore,
+		"sync/atomic.StoreUint32":           extAtomicStore,
+		"sync/atomic.StoreUint64":           extAtomicStore,
+		"sync/atomic.StoreUintptr":          extAtomicStore,
+		"sync/atomic.StorePointer":          extAtomicStore,
+		"sync/atomic.SwapInt32":             extAtomicSwap,
+		"sync/atomic.SwapInt64":             extAtomicSwap,
+		"sync/atomic.SwapUint32":            extAtomicSwap,
+		"sync/atomic.SwapUint64":            extAtomicSwap,
+		"sync/atomic.SwapPointer":           extAtomicSwap,
+		"sync/atomic.CompareAndSwapInt32":   extAtomicCAS,
+		"sync/atomic.CompareAndSwapInt64":   extAtomicCAS,
+		"sync/atomic.CompareAndSwapUint32":  extAtomicCAS,
+		"sync/atomic.CompareAndSwapUint64":  extAtomicCAS,
+		"sync/atomic.CompareAndSwapUintptr": extAtomicCAS,
+		"sync/atomic.CompareAndSwapPointer": extAtomicCAS,
+
+		// ---- time
+		"time.Now":   extTimeNow,
+		"time.now":   func(fr *frame, a []value) value { return tuple{int64(1700000000), int32(0), int64(0)} },
+		"time.Sleep": func(fr *frame, a []value) value { fr.i.yieldPoint("sleep"); return nil },
+		"time.runtimeNano": func(fr *frame, a []value) value { return int64(0) },
+		"github.com/henrylee2cn/goutil/coarsetime.FloorTimeNow":   extTimeNow,
+		"github.com/henrylee2cn/goutil/coarsetime.CeilingTimeNow": extTimeNow,
+
+		// ---- fmt / errors natives (formatting is not the subject)
+		"fmt.Sprintf": extSprintf,
+		"fmt.Sprint":  extSprint,
+		"fmt.Sprintln": extSprint,
+		"fmt.Errorf":  extErrorf,
+		"fmt.Printf":  extNop2,
+		"fmt.Println": extNop2,
+		"fmt.Print":   extNop2,
+		"fmt.Fprintf": extNop2,
+		"fmt.Fprintln": extNop2,
+		"fmt.Fprint":  extNop2,
+	} {
+		if v != nil {
+			externals[k] = v
+		}
+	}
+}
+
+func extNop2(fr *frame, args []value) value { return tuple{0, iface{}} }
+
+// ---------------------------------------------------------------- bytes
+
+func byteSeq(v value) []value {
+	switch x := v.(type) {
+	case []value:
+		return x
+	case string, *symstr:
+		return strBytesView(x)
+	}
+	panic(engineError(fmt.Sprintf("byteSeq: %T", v)))
+}
+
+func (i *interpreter) byteEq(a, b value) value {
+	ca, oka := a.(uint8)
+	cb, okb := b.(uint8)
+	if oka && okb {
+		return ca == cb
+	}
+	ta, _ := i.termOf(a)
+	tb, _ := i.termOf(b)
+	return mkVal(i.tc.Cmp("=", ta, tb), types.Bool)
+}
+
+func extIndexByte(fr *frame, args []value) value {
+	s := byteSeq(args[0])
+	for k, b := range s {
+		if fr.i.truth(fr.i.byteEq(b, args[1]), "IndexByte") {
+			return k
 		}
 	}
 	return -1
 }
 
-func ext۰math۰Float64frombits(fr *frame, args []value) value {
-	return math.Float64frombits(args[0].(uint64))
-}
-
-func ext۰math۰Float64bits(fr *frame, args []value) value {
-	return math.Float64bits(args[0].(float64))
-}
-
-func ext۰math۰Float32frombits(fr *frame, args []value) value {
-	return math.Float32frombits(args[0].(uint32))
-}
-
-func ext۰math۰Abs(fr *frame, args []value) value {
-	return math.Abs(args[0].(float64))
-}
-
-func ext۰math۰Copysign(fr *frame, args []value) value {
-	return math.Copysign(args[0].(float64), args[1].(float64))
-}
-
-func ext۰math۰Exp(fr *frame, args []value) value {
-	return math.Exp(args[0].(float64))
-}
-
-func ext۰math۰Float32bits(fr *frame, args []value) value {
-	return math.Float32bits(args[0].(float32))
-}
-
-func ext۰math۰Min(fr *frame, args []value) value {
-	return math.Min(args[0].(float64), args[1].(float64))
-}
-
-func ext۰math۰NaN(fr *frame, args []value) value {
-	return math.NaN()
-}
-
-func ext۰math۰IsNaN(fr *frame, args []value) value {
-	return math.IsNaN(args[0].(float64))
-}
-
-func ext۰math۰Inf(fr *frame, args []value) value {
-	return math.Inf(args[0].(int))
-}
-
-func ext۰math۰Ldexp(fr *frame, args []value) value {
-	return math.Ldexp(args[0].(float64), args[1].(int))
-}
-
-func ext۰math۰Log(fr *frame, args []value) value {
-	return math.Log(args[0].(float64))
-}
-
-func ext۰math۰Sqrt(fr *frame, args []value) value {
-	return math.Sqrt(args[0].(float64))
-}
-
-func ext۰runtime۰Breakpoint(fr *frame, args []value) value {
-	runtime.Breakpoint()
-	return nil
-}
-
-func ext۰sort۰Ints(fr *frame, args []value) value {
-	x := args[0].([]value)
-	sort.Slice(x, func(i, j int) bool {
-		return x[i].(int) < x[j].(int)
-	})
-	return nil
-}
-func ext۰sort۰Strings(fr *frame, args []value) value {
-	x := args[0].([]value)
-	sort.Slice(x, func(i, j int) bool {
-		return x[i].(string) < x[j].(string)
-	})
-	return nil
-}
-func ext۰sort۰Float64s(fr *frame, args []value) value {
-	x := args[0].([]value)
-	sort.Slice(x, func(i, j int) bool {
-		return x[i].(float64) < x[j].(float64)
-	})
-	return nil
-}
-
-func ext۰strconv۰Atoi(fr *frame, args []value) value {
-	i, e := strconv.Atoi(args[0].(string))
-	if e != nil {
-		return tuple{i, iface{fr.i.runtimeErrorString, e.Error()}}
-	}
-	return tuple{i, iface{}}
-}
-func ext۰strconv۰Itoa(fr *frame, args []value) value {
-	return strconv.Itoa(args[0].(int))
-}
-func ext۰strconv۰FormatFloat(fr *frame, args []value) value {
-	return strconv.FormatFloat(args[0].(float64), args[1].(byte), args[2].(int), args[3].(int))
-}
-
-func ext۰strings۰Count(fr *frame, args []value) value {
-	return strings.Count(args[0].(string), args[1].(string))
-}
-
-func ext۰strings۰EqualFold(fr *frame, args []value) value {
-	return strings.EqualFold(args[0].(string), args[1].(string))
-}
-func ext۰strings۰IndexByte(fr *frame, args []value) value {
-	return strings.IndexByte(args[0].(string), args[1].(byte))
-}
-
-func ext۰strings۰Index(fr *frame, args []value) value {
-	return strings.Index(args[0].(string), args[1].(string))
-}
-
-func ext۰strings۰Replace(fr *frame, args []value) value {
-	// func Replace(s, old, new string, n int) string
-	s := args[0].(string)
-	new := args[1].(string)
-	old := args[2].(string)
-	n := args[3].(int)
-	return strings.Replace(s, old, new, n)
-}
-
-func ext۰strings۰ToLower(fr *frame, args []value) value {
-	return strings.ToLower(args[0].(string))
-}
-
-func ext۰runtime۰GOMAXPROCS(fr *frame, args []value) value {
-	// Ignore args[0]; don't let the interpreted program
-	// set the interpreter's GOMAXPROCS!
-	return runtime.GOMAXPROCS(0)
-}
-
-func ext۰runtime۰Goexit(fr *frame, args []value) value {
-	// TODO(adonovan): don't kill the interpreter's main goroutine.
-	runtime.Goexit()
-	return nil
-}
-
-func ext۰runtime۰GOROOT(fr *frame, args []value) value {
-	return runtime.GOROOT()
-}
-
-func ext۰runtime۰GC(fr *frame, args []value) value {
-	runtime.GC()
-	return nil
-}
-
-func ext۰runtime۰Gosched(fr *frame, args []value) value {
-	runtime.Gosched()
-	return nil
-}
-
-func ext۰runtime۰NumCPU(fr *frame, args []value) value {
-	return runtime.NumCPU()
-}
-
-func ext۰time۰Sleep(fr *frame, args []value) value {
-	time.Sleep(time.Duration(args[0].(int64)))
-	return nil
-}
-
-func ext۰os۰Getenv(fr *frame, args []value) value {
-	name := args[0].(string)
-	switch name {
-	case "GOSSAINTERP":
-		return "1"
-	}
-	return os.Getenv(name)
-}
-
-func ext۰os۰Exit(fr *frame, args []value) value {
-	panic(exitPanic(args[0].(int)))
-}
-
-func ext۰unicode۰utf8۰DecodeRuneInString(fr *frame, args []value) value {
-	r, n := utf8.DecodeRuneInString(args[0].(string))
-	return tuple{r, n}
-}
-
-// A fake function for turning an arbitrary value into a string.
-// Handles only the cases needed by the tests.
-// Uses same logic as 'print' built-in.
-func ext۰fmt۰Sprint(fr *frame, args []value) value {
-	buf := new(bytes.Buffer)
-	wasStr := false
-	for i, arg := range args[0].([]value) {
-		x := arg.(iface).v
-		_, isStr := x.(string)
-		if i > 0 && !wasStr && !isStr {
-			buf.WriteByte(' ')
+func extCountByte(fr *frame, args []value) value {
+	s := byteSeq(args[0])
+	n := 0
+	for _, b := range s {
+		if fr.i.truth(fr.i.byteEq(b, args[1]), "Count") {
+			n++
 		}
-		wasStr = isStr
-		buf.WriteString(toString(x))
 	}
-	return buf.String()
+	return n
+}
+
+func extBytesEqual(fr *frame, args []value) value {
+	a, b := byteSeq(args[0]), byteSeq(args[1])
+	if len(a) != len(b) {
+		return false
+	}
+	acc := value(true)
+	for k := range a {
+		acc = fr.i.boolAnd(acc, fr.i.byteEq(a[k], b[k]))
+		if c, ok := acc.(bool); ok && !c {
+			return false
+		}
+	}
+	return acc
+}
+
+func extBytesCompare(fr *frame, args []value) value {
+	a, b := byteSeq(args[0]), byteSeq(args[1])
+	n := len(a)
+	if len(b) < n {
+		n = len(b)
+	}
+	i := fr.i
+	for k := 0; k < n; k++ {
+		if i.truth(i.byteEq(a[k], b[k]), "Compare.eq") {
+			continue
+		}
+		ta, _ := i.termOf(a[k])
+		tb, _ := i.termOf(b[k])
+		if i.truth(mkVal(i.tc.Cmp("bvult", ta, tb), types.Bool), "Compare.lt") {
+			return -1
+		}
+		return 1
+	}
+	switch {
+	case len(a) < len(b):
+		return -1
+	case len(a) > len(b):
+		return 1
+	}
+	return 0
+}
+
+func extIndexSub(fr *frame, args []value) value {
+	a, b := byteSeq(args[0]), byteSeq(args[1])
+	i := fr.i
+	for k := 0; k+len(b) <= len(a); k++ {
+		acc := value(true)
+		for j := range b {
+			acc = i.boolAnd(acc, i.byteEq(a[k+j], b[j]))
+			if c, ok := acc.(bool); ok && !c {
+				break
+			}
+		}
+		if i.truth(acc, "Index") {
+			return k
+		}
+	}
+	return -1
+}
+
+func extBytesToStringAlias(fr *frame, args []value) value {
+	b := args[0].([]value)
+	if len(b) == 0 {
+		return ""
+	}
+	return &symstr{b[:len(b):len(b)]}
+}
+
+func extStringToBytesAlias(fr *frame, args []value) value {
+	switch s := args[0].(type) {
+	case string:
+		r := strBytesView(s)
+		return r
+	case *symstr:
+		return s.b[:len(s.b):len(s.b)]
+	}
+	panic(engineError("StringToBytes"))
+}
+
+// ---------------------------------------------------------------- sync
+
+func (i *interpreter) mutexOf(p *value) *mutexState {
+	m := i.side.mutex[p]
+	if m == nil {
+		m = &mutexState{}
+		i.side.mutex[p] = m
+	}
+	return m
+}
+
+func extMutexLock(fr *frame, args []value) value {
+	i := fr.i
+	i.yieldPoint("lock")
+	m := i.mutexOf(args[0].(*value))
+	i.block(func() bool { return !m.locked }, "Mutex.Lock")
+	m.locked = true
+	m.owner = i.sch.cur.id
+	return nil
+}
+
+func extMutexTryLock(fr *frame, args []value) value {
+	i := fr.i
+	i.yieldPoint("trylock")
+	m := i.mutexOf(args[0].(*value))
+	if m.locked {
+		return false
+	}
+	m.locked = true
+	m.owner = i.sch.cur.id
+	return true
+}
+
+func extMutexUnlock(fr *frame, args []value) value {
+	i := fr.i
+	m := i.mutexOf(args[0].(*value))
+	if !m.locked {
+		i.sch.crash = "fatal error: sync: unlock of unlocked mutex"
+		i.endPath()
+		panic(pathAbort{"crash", i.sch.crash})
+	}
+	m.locked = false
+	i.yieldPoint("unlock")
+	return nil
+}
+
+func (i *interpreter) rwOf(p *value) *rwState {
+	m := i.side.rw[p]
+	if m == nil {
+		m = &rwState{}
+		i.side.rw[p] = m
+	}
+	return m
+}
+
+func extRWLock(fr *frame, args []value) value {
+	i := fr.i
+	i.yieldPoint("rwlock")
+	m := i.rwOf(args[0].(*value))
+	i.block(func() bool { return !m.writer && m.readers == 0 }, "RWMutex.Lock")
+	m.writer = true
+	return nil
+}
+
+func extRWUnlock(fr *frame, args []value) value {
+	i := fr.i
+	m := i.rwOf(args[0].(*value))
+	if !m.writer {
+		i.sch.crash = "fatal error: sync: Unlock of unlocked RWMutex"
+		i.endPath()
+		panic(pathAbort{"crash", i.sch.crash})
+	}
+	m.writer = false
+	i.yieldPoint("rwunlock")
+	return nil
+}
+
+func extRWRLock(fr *frame, args []value) value {
+	i := fr.i
+	i.yieldPoint("rlock")
+	m := i.rwOf(args[0].(*value))
+	i.block(func() bool { return !m.writer }, "RWMutex.RLock")
+	m.readers++
+	return nil
+}
+
+func extRWRUnlock(fr *frame, args []value) value {
+	i := fr.i
+	m := i.rwOf(args[0].(*value))
+	if m.readers <= 0 {
+		i.sch.crash = "fatal error: sync: RUnlock of unlocked RWMutex"
+		i.endPath()
+		panic(pathAbort{"crash", i.sch.crash})
+	}
+	m.readers--
+	i.yieldPoint("runlock")
+	return nil
+}
+
+func (i *interpreter) wgOf(p *value) *wgState {
+	m := i.side.wg[p]
+	if m == nil {
+		m = &wgState{}
+		i.side.wg[p] = m
+	}
+	return m
+}
+
+func extWGAdd(fr *frame, args []value) value {
+	i := fr.i
+	i.yieldPoint("wg.add")
+	w := i.wgOf(args[0].(*value))
+	w.n += i.concretize(args[1], "wg.Add")
+	if w.n < 0 {
+		panic(targetPanic{v: iface{i.runtimeErrorString, "sync: negative WaitGroup counter"}})
+	}
+	return nil
+}
+
+func extWGWait(fr *frame, args []value) value {
+	i := fr.i
+	i.yieldPoint("wg.wait")
+	w := i.wgOf(args[0].(*value))
+	i.block(func() bool { return w.n == 0 }, "WaitGroup.Wait")
+	return nil
+}
+
+func extPoolGet(fr *frame, args []value) value {
+	i := fr.i
+	p := args[0].(*value)
+	ps := i.side.pool[p]
+	newFn := (*p).(structure)[len((*p).(structure))-1]
+	fresh := func() value {
+		if isNilFunc(newFn) {
+			return iface{}
+		}
+		return call(i, fr, 0, newFn, nil)
+	}
+	if ps == nil || len(ps.items) == 0 || i.world.poolMode == 0 {
+		return fresh()
+	}
+	switch i.world.poolMode {
+	case 1:
+		it := ps.items[len(ps.items)-1]
+		ps.items = ps.items[:len(ps.items)-1]
+		return it
+	default:
+		k := i.choose(len(ps.items)+1, "pool.Get")
+		if k == 0 {
+			return fresh()
+		}
+		it := ps.items[k-1]
+		ps.items = append(append([]value{}, ps.items[:k-1]...), ps.items[k:]...)
+		return it
+	}
+}
+
+func extPoolPut(fr *frame, args []value) value {
+	i := fr.i
+	p := args[0].(*value)
+	if it, ok := args[1].(iface); ok && it.t == nil {
+		return nil
+	}
+	ps := i.side.pool[p]
+	if ps == nil {
+		ps = &poolState{}
+		i.side.pool[p] = ps
+	}
+	if i.world.poolMode != 0 {
+		ps.items = append(ps.items, args[1])
+	}
+	return nil
+}
+
+func (i *interpreter) smapOf(p *value) *omap {
+	m := i.side.smap[p]
+	if m == nil {
+		m = newOmap()
+		i.side.smap[p] = m
+	}
+	return m
+}
+
+func extSMapLoad(fr *frame, args []value) value {
+	i := fr.i
+	i.yieldPoint("map.load")
+	m := i.smapOf(args[0].(*value))
+	if ix := i.mapFind(m, anyType, args[1]); ix >= 0 {
+		return tuple{m.entries[ix].val, true}
+	}
+	return tuple{iface{}, false}
+}
+
+func extSMapStore(fr *frame, args []value) value {
+	i := fr.i
+	i.yieldPoint("map.store")
+	i.mapInsert(i.smapOf(args[0].(*value)), anyType, args[1], args[2])
+	return nil
+}
+
+func extSMapLoadOrStore(fr *frame, args []value) value {
+	i := fr.i
+	i.yieldPoint("map.loadorstore")
+	m := i.smapOf(args[0].(*value))
+	if ix := i.mapFind(m, anyType, args[1]); ix >= 0 {
+		return tuple{m.entries[ix].val, true}
+	}
+	i.mapInsert(m, anyType, args[1], args[2])
+	return tuple{args[2], false}
+}
+
+func extSMapDelete(fr *frame, args []value) value {
+	i := fr.i
+	i.yieldPoint("map.delete")
+	i.mapDelete(i.smapOf(args[0].(*value)), anyType, args[1])
+	return nil
+}
+
+func extSMapRange(fr *frame, args []value) value {
+	i := fr.i
+	i.yieldPoint("map.range")
+	m := i.smapOf(args[0].(*value))
+	snap := append([]omapEntry{}, m.entries...)
+	for _, e := range snap {
+		if e.dead {
+			continue
+		}
+		r := call(i, fr, 0, args[1], []value{e.key, e.val})
+		if !i.truth(r, "range-callback") {
+			break
+		}
+	}
+	return nil
+}
+
+func extSMapLen(fr *frame, args []value) value {
+	fr.i.yieldPoint("map.len")
+	return fr.i.smapOf(args[0].(*value)).len()
+}
+
+func extSMapClear(fr *frame, args []value) value {
+	fr.i.side.smap[args[0].(*value)] = newOmap()
+	return nil
+}
+
+// ---------------------------------------------------------------- atomics
+
+func atomicCell(a value) *value {
+	switch p := a.(type) {
+	case *value:
+		if p == nil {
+			panic(targetRuntimeError("invalid memory address or nil pointer dereference"))
+		}
+		return p
+	}
+	panic(engineError(fmt.Sprintf("atomic op on %T", a)))
+}
+
+func extAtomicAdd(fr *frame, args []value) value {
+	fr.i.yieldPoint("atomic.add")
+	p := atomicCell(args[0])
+	r := fr.i.binopAdd(*p, args[1])
+	fr.i.store(nil2int, p, r)
+	return r
+}
+
+var nil2int = types.Typ[types.Int]
+
+func (i *interpreter) binopAdd(x, y value) value {
+	if isSym(x) || isSym(y) {
+		return i.symBinop(addTok, x, y)
+	}
+	return cbinop(addTok, nil, x, y)
+}
+
+func extAtomicLoad(fr *frame, args []value) value {
+	fr.i.yieldPoint("atomic.load")
+	return *atomicCell(args[0])
+}
+
+func extAtomicStore(fr *frame, args []value) value {
+	fr.i.yieldPoint("atomic.store")
+	fr.i.store(nil2int, atomicCell(args[0]), args[1])
+	return nil
+}
+
+func extAtomicSwap(fr *frame, args []value) value {
+	fr.i.yieldPoint("atomic.swap")
+	p := atomicCell(args[0])
+	old := *p
+	fr.i.store(nil2int, p, args[1])
+	return old
+}
+
+func extAtomicCAS(fr *frame, args []value) value {
+	i := fr.i
+	i.yieldPoint("atomic.cas")
+	p := atomicCell(args[0])
+	var eq value
+	if up, ok := (*p).(unsafePtr); ok {
+		eq = up.p == args[1].(unsafePtr).p
+	} else if isSym(*p) || isSym(args[1]) {
+		eq = i.symBinop(eqlTok, *p, args[1])
+	} else {
+		eq = *p == args[1]
+	}
+	if i.truth(eq, "cas") {
+		i.store(nil2int, p, args[2])
+		return true
+	}
+	return false
+}
+
+// ---------------------------------------------------------------- time
+
+func extTimeNow(fr *frame, args []value) value {
+	i := fr.i
+	i.world.now++
+	// Time{wall uint64, ext int64, loc *Location}; wall without monotonic bit,
+	// ext = seconds since year 1.
+	return structure{uint64(0), int64(63835000000 + i.world.now), (*value)(nil)}
+}
+
+// ---------------------------------------------------------------- fmt
+
+// toNative converts an interpreter value to a Go value fit for fmt.
+func (i *interpreter) toNative(fr *frame, v value) interface{} {
+	switch x := v.(type) {
+	case iface:
+		if x.t == nil {
+			return nil
+		}
+		// error or Stringer: call the interpreted method
+		for _, mname := range []string{"Error", "String"} {
+			if m := i.methodByName(x.t, mname); m != nil && m.Signature.Params().Len() == 0 && m.Signature.Results().Len() == 1 {
+				if b, ok := m.Signature.Results().At(0).Type().Underlying().(*types.Basic); ok && b.Kind() == types.String {
+					func() {
+						defer func() {
+							if r := recover(); r != nil {
+								if _, ok := r.(pathAbort); ok {
+									panic(r)
+								}
+								v = "<panic in " + mname + ">"
+							}
+						}()
+						v = call(i, fr, 0, m, []value{x.v})
+					}()
+					return i.toNative(fr, v)
+				}
+			}
+		}
+		return i.toNative(fr, x.v)
+	case *symstr:
+		if s, ok := concreteStr(x); ok {
+			return s
+		}
+		return fmt.Sprintf("<sym-string len=%d>", len(x.b))
+	case sym:
+		return "<sym>"
+	case []value:
+		allb := len(x) > 0
+		bs := make([]byte, len(x))
+		for k, e := range x {
+			b, ok := e.(uint8)
+			if !ok {
+				allb = false
+				break
+			}
+			bs[k] = b
+		}
+		if allb {
+			return bs
+		}
+		return toStringTrunc(x)
+	case bool, int, int8, int16, int32, int64, uint, uint8, uint16, uint32, uint64, uintptr, float32, float64, string:
+		return x
+	case rtype:
+		return x.t.String()
+	case *value:
+		if x == nil {
+			return nil
+		}
+		return fmt.Sprintf("%p", x)
+	}
+	return toStringTrunc(v)
+}
+
+func (i *interpreter) methodByName(t types.Type, name string) *ssa.Function {
+	if t == rtypeType || t == errorType {
+		return nil
+	}
+	ms := i.prog.MethodSets.MethodSet(t)
+	for k := 0; k < ms.Len(); k++ {
+		if ms.At(k).Obj().Name() == name {
+			return i.prog.MethodValue(ms.At(k))
+		}
+	}
+	return nil
+}
+
+func (i *interpreter) nativeArgs(fr *frame, v value) []interface{} {
+	var out []interface{}
+	for _, a := range v.([]value) {
+		out = append(out, i.toNative(fr, a))
+	}
+	return out
+}
+
+func safeSprintf(format string, args []interface{}) (s string) {
+	defer func() {
+		if r := recover(); r != nil {
+			s = format
+		}
+	}()
+	return fmt.Sprintf(format, args...)
+}
+
+func extSprintf(fr *frame, args []value) value {
+	f, ok := concreteStr(args[0])
+	if !ok {
+		return "<sym-format>"
+	}
+	return safeSprintf(f, fr.i.nativeArgs(fr, args[1]))
+}
+
+func extSprint(fr *frame, args []value) value {
+	return fmt.Sprint(fr.i.nativeArgs(fr, args[0])...)
+}
+
+func extErrorf(fr *frame, args []value) value {
+	s := extSprintf(fr, args)
+	// build an *errors.errorString via the interpreted errors.New
+	fn := fr.i.lookupFunc("errors", "New")
+	return call(fr.i, fr, 0, fn, []value{s})
 }
